@@ -13,6 +13,9 @@ TRACE_NOTE = "Trusted: luamon (Lua 5.3 model written for this task, calibrated b
 chk("C01", "exploration", "Generated typed programs covering every construct the statement lists are compiled by the real compiler; the emitted Lua is executed under luamon with monitors (uninitialised reads, temp interference, coercions, missing fields) and its print trace and terminal outcome are compared with an independent reference interpreter of the source. Tens of thousands of programs per quick run.", TRACE_NOTE, "runtime monitor: trace comparison against an executable reference model + instrumented Lua runtime", "DESIGN.md §3 C01")
 chk("C10", "exploration", "Recursion- and closure-dense generated programs run under luamon with the shadow monitor for free V-names (a read that sees another activation's write), live-across-call counters and a census of free temporaries written in function bodies; traces are compared with the reference interpreter.", TRACE_NOTE, "runtime monitor: shadow-state interference monitor + trace comparison on re-entrant workloads", "DESIGN.md §3 C10")
 chk("C06", "exploration", "Template programs whose lexical slots (field names incl. Lua-only keywords, string and number literals, every expression kind as an unused statement, dead code after ret/break/continue, 8 size ladders) are filled from hostile pools are compiled; every accepted one is loaded by luamon's lparser-shaped load phase (syntax, return-not-last, break-outside-loop, goto rules, limits with grey zones). C01/C10 additionally load-check every generated program.", "Trusted: luamon's load phase as a model of Lua 5.3 load-time rules; grey zones give no verdict. Open findings KF-C06-string-escapes and KF-C06-lua-limits are quarantined to their hazard pools/rungs.", "runtime monitor: load-phase oracle of the instrumented Lua runtime over hostile lexical pools and size ladders", "DESIGN.md §3 C06")
+REL_TRACE_NOTE = "Trusted: luamon (Lua 5.3 model); the renderings are produced by the harness printer from one abstract program; a case where some rendering has no verdict (budget, grey zone) is discarded."
+chk("C11", "exploration", "Generated programs extended with definitions covering every dependency kind are rendered in 7 top-level orders; acceptance, print trace, outcome and uninitialised-read monitor events under luamon must be identical; programs with cyclic initialisers must be rejected in every order tried.", REL_TRACE_NOTE, "runtime monitor: relational trace oracle over permutations + uninitialised-read monitor in the instrumented Lua runtime", "DESIGN.md §3 C11")
+chk("C12", "exploration", "A generated program is run as one file and as random projects of 2-5 files in up to 3 directory levels, every cross-file reference independently using use / use as / from use / from use as with relative or rooted paths (cycles arise naturally); traces must equal the single-file run, every path is read once, and removing a needed import must cause rejection. A hand-written scenario covers exports.sy folders, chained namespaces, alias+plain import and cross-file assignment.", REL_TRACE_NOTE, "runtime monitor: relational trace oracle (single-file vs multi-file renderings), reader-call counter, negative import variants", "DESIGN.md §3 C12")
 chk("C07", "exploration", "Random token sequences, mutated corpus files and generated programs, near-valid programs, multi-file projects (missing/cyclic imports) are compiled with every error rendered (Display+Debug) under catch_unwind and a logical fuel; panics are signatures by source location, fuel exhaustion is the bounded-progress restatement of 'never loops forever'.", "Trusted: fuel ticks cover the loops that drive the compiler (hook). Native stack overflow would kill a worker and be attributed by the journal. Open finding KF-C07-typechecker-blowup is quarantined to generated-program families.", "runtime monitor: panic/abort/fuel monitor around the real compiler over hostile inputs", "DESIGN.md §3 C07")
 chk("C16", "exploration", "Valid and multi-error invalid projects are compiled 8x in-process (fresh hash seeds) and in fresh processes with different environment/cwd; Lua bytes or the rendered ordered error list must be identical.", "Trusted: ANSI colour codes are stripped (environment-controlled by design).", "runtime monitor: repeated-execution determinism oracle (in-process and cross-process)", "DESIGN.md §3 C16")
 PLANT_NOTE = "Trusted: each planted kind is a definite violation by the property's own enumeration (literal operands); the unplanted base is confirmed accepted first."
